@@ -99,7 +99,36 @@ fn csi(params: &str, f: char) -> Op {
 /// For every single-chunk parser-path op add variants preceded by each poison sequence
 /// (a sequence that ends without dispatch): state leaking out of it changes what the
 /// op under test does. The model sees the whole string, so expectations stay exact.
+static EXTRAS: std::sync::atomic::AtomicBool = std::sync::atomic::AtomicBool::new(true);
+
+/// Parser-path extras (poison prefixes, zero padding, big numbers) multiply the number of
+/// parser-path operations by about ten; the main sweeps over all base states run without
+/// them and a second sweep over every k-th base state runs with them.
+pub fn set_extras(on: bool) {
+    EXTRAS.store(on, std::sync::atomic::Ordering::SeqCst);
+}
+pub fn extras() -> bool {
+    EXTRAS.load(std::sync::atomic::Ordering::SeqCst)
+}
+
+/// sweep all bases without the parser-path extras, then every `k`-th base with them
+pub fn sweep_with_extras<OF, J>(c: &Collector, bases: &[Base], k: usize, ops_for: OF, judge: J)
+where
+    OF: Fn(&Base) -> Vec<Op>,
+    J: Fn(&Collector, &Trans, &mut Local),
+{
+    set_extras(false);
+    sweep(c, bases, &ops_for, &judge);
+    set_extras(true);
+    let thin: Vec<Base> = bases.iter().step_by(k.max(1)).cloned().collect();
+    c.count("bases_with_parser_extras", thin.len() as u64);
+    sweep(c, &thin, &ops_for, &judge);
+}
+
 pub fn with_poison(ops: Vec<Op>) -> Vec<Op> {
+    if !extras() {
+        return ops;
+    }
     let mut out = Vec::with_capacity(ops.len() * 3);
     for op in ops {
         if let Op::Feed(chunks, utf8) = &op {
@@ -140,6 +169,21 @@ pub fn large_bases(c: &Collector, fills: Vec<Fill>) -> Vec<Base> {
     }
     c.count("large_geometry_bases", b.len() as u64);
     b
+}
+
+/// Decimal spellings around 2^8, 2^16, 2^31, 2^32 and 2^64 (all saturate at 9999; an
+/// accumulator that wraps would see 0..3 instead).
+pub fn big_numbers() -> Vec<String> {
+    let mut v = Vec::new();
+    if !extras() {
+        return v;
+    }
+    for base in [256u128, 65536, 2147483648, 4294967296, 8589934592, 18446744073709551616, 36893488147419103232] {
+        for d in [0u128, 1, 2, 3, 5, 25] {
+            v.push(format!("{}", base + d));
+        }
+    }
+    v
 }
 
 /// `ESC [ 5 ; 12 H` -> `ESC [ 00000005 ; 00000012 H` (None if the string has no number)
@@ -251,6 +295,11 @@ pub fn c05_parser_ops(b: &Base) -> Vec<Op> {
     }
     v.push(Op::Feed(vec!["\x08".into()], true));
     v.push(Op::Feed(vec!["\r".into()], true));
+    for h in big_numbers() {
+        for f in ['A', 'B', 'C', 'D', 'G', 'd', 'H'] {
+            v.push(csi(&h, f));
+        }
+    }
     // long parameter lists (only the first one or two count)
     for n in [16usize, 17, 18, 33, 100] {
         let zeros = vec!["0"; n - 2].join(";");
@@ -285,7 +334,7 @@ pub fn c05(c: &Collector, g: &mut Guard) {
     let pbases: Vec<Base> =
         bases.iter().filter(|b| !b.script.iter().any(|o| matches!(o, Op::Draw(t) if t.len() > 1))).cloned().collect();
     c.count("parser_path_bases", pbases.len() as u64);
-    sweep(c, &pbases, c05_parser_ops, |c, t, local| {
+    sweep_with_extras(c, &pbases, 6, c05_parser_ops, |c, t, local| {
         local.count("parser_path_transitions");
         refine_all(c, "C05", "E2.depth1.parser", t, local);
     });
@@ -407,6 +456,11 @@ pub fn c07_ops(b: &Base) -> Vec<Op> {
         v.push(csi(h, 'K'));
         v.push(csi(h, 'X'));
     }
+    for h in big_numbers() {
+        v.push(csi(&h, 'J'));
+        v.push(csi(&h, 'K'));
+        v.push(csi(&h, 'X'));
+    }
     with_poison(v)
 }
 
@@ -424,7 +478,7 @@ pub fn c07(c: &Collector, g: &mut Guard) {
     };
     let bases = gen_bases(c, &spec);
     sample_bases(c, &bases, &c07_ops);
-    sweep(c, &bases, c07_ops, |c, t, local| {
+    sweep_with_extras(c, &bases, 8, c07_ops, |c, t, local| {
         refine_all(c, "C07", "E2.depth1", t, local);
     });
     // every selector value the parser can deliver, from a thin set of base states
@@ -468,6 +522,10 @@ pub fn c13_ops(b: &Base) -> Vec<Op> {
         v.push(csi(h, '@'));
         v.push(csi(h, 'P'));
     }
+    for h in big_numbers() {
+        v.push(csi(&h, '@'));
+        v.push(csi(&h, 'P'));
+    }
     with_poison(v)
 }
 
@@ -489,7 +547,7 @@ pub fn c13(c: &Collector, g: &mut Guard) {
     };
     let bases = gen_bases(c, &spec);
     sample_bases(c, &bases, &c13_ops);
-    sweep(c, &bases, c13_ops, |c, t, local| {
+    sweep_with_extras(c, &bases, 8, c13_ops, |c, t, local| {
         refine_all(c, "C13", "E2.depth1", t, local);
     });
     let lb = large_bases(c, vec![Fill::F0, Fill::F1, Fill::F2, Fill::F8]);
@@ -654,6 +712,11 @@ pub fn c06_ops(b: &Base) -> Vec<Op> {
     for h in ["", "0", "1;2", "2;3", "2", ";2", "0;0", "3;1", "1;9999"] {
         v.push(csi(h, 'r'));
     }
+    for h in big_numbers().iter().step_by(3) {
+        v.push(csi(h, 'L'));
+        v.push(csi(h, 'M'));
+        v.push(csi(&format!("{};{}", h, h), 'r'));
+    }
     let _ = c;
     with_poison(v)
 }
@@ -677,7 +740,7 @@ pub fn c06(c: &Collector, g: &mut Guard) {
     };
     let bases = gen_bases(c, &spec);
     sample_bases(c, &bases, &c06_ops);
-    sweep(c, &bases, c06_ops, |c, t, local| {
+    sweep_with_extras(c, &bases, 8, c06_ops, |c, t, local| {
         refine_all(c, "C06", "E2.depth1", t, local);
     });
     let lb = large_bases(c, vec![Fill::F0, Fill::F2, Fill::F5]);
